@@ -9,6 +9,7 @@ import (
 
 	"github.com/ipld/go-ipld-prime/datamodel"
 	"github.com/ipld/go-ipld-prime/linking"
+	cidlink "github.com/ipld/go-ipld-prime/linking/cid"
 	"github.com/ipld/go-ipld-prime/storage/memstore"
 	"github.com/ipld/go-ipld-prime/traversal"
 	"pgregory.net/rapid"
@@ -187,6 +188,43 @@ func c16Check(c C16Case, rec *evid.Rec) error {
 				return fmt.Errorf("%s: a block was written that is not part of the updated graph (key %x)", where, k)
 			}
 		}
+		// the same transform once more with a storage whose first (then: last) commit fails: it must fail too,
+		// never hand out a new root whose links point at a block that was not stored
+		if len(want.NewBlocks) > 0 {
+			for _, failAt := range []int{1, len(want.NewBlocks)} {
+				tmpls := cidlink.DefaultLinkSystem()
+				tmpls.SetWriteStorage(&memstore.Store{Bag: map[string][]byte{}})
+				inner, commits := tmpls.StorageWriteOpener, 0
+				saved := cfg.LinkSystem.StorageWriteOpener
+				cfg.LinkSystem.StorageWriteOpener = func(lc linking.LinkContext) (io.Writer, linking.BlockWriteCommitter, error) {
+					w, commit, err := inner(lc)
+					if err != nil {
+						return nil, nil, err
+					}
+					return w, func(l datamodel.Link) error {
+						commits++
+						if commits == failAt {
+							return fmt.Errorf("injected commit failure")
+						}
+						return commit(l)
+					}, nil
+				}
+				var out2 datamodel.Node
+				ferr := evid.Guard("FocusedTransform", func() error {
+					var e error
+					out2, e = traversal.Progress{Cfg: cfg}.FocusedTransform(curN, path, fn, st.CreateParents)
+					return e
+				})
+				cfg.LinkSystem.StorageWriteOpener = saved
+				if commits >= failAt && ferr == nil {
+					return fmt.Errorf("%s: commit #%d of the changed blocks failed, yet FocusedTransform returned a new root (%v) without error", where, failAt, out2 != nil)
+				}
+				if ferr != nil && strings.HasPrefix(ferr.Error(), "PANIC") {
+					return fmt.Errorf("%s (commit #%d failing): %v", where, failAt, ferr)
+				}
+				cls = append(cls, "commit-failure")
+			}
+		}
 		if len(segs) >= 2 || len(want.NewBlocks) > 0 || si >= 1 || st.Edit.Kind == "remove" || want.Callbacks[0].Arg == nil {
 			nt = true
 		}
@@ -251,7 +289,7 @@ func drawTarget(t *rapid.T, root val.V, store map[string]val.V) (segs []string, 
 
 var c16Focused = evid.Part[C16Case]{
 	Prop: "C16", Name: "focused", Quick: 3000, Thorough: 1200000,
-	Rule: "block graph × sequence of 1-4 FocusedTransforms (each applied to the previous result): target = existing position (map value, list element, below links, root), new map key, list append, missing parents with/without createParents, out-of-bounds / non-numeric index, past a scalar; edit = replace by a drawn value, identity, remove; separate read and write stores; non-trivial = target depth ≥2, below a link, a later step of a sequence, a removal or an insertion; distinct by (graph, steps)",
+	Rule: "block graph × sequence of 1-4 FocusedTransforms (each applied to the previous result): target = existing position (map value, list element, below links, root), new map key, list append, missing parents with/without createParents, out-of-bounds / non-numeric index, past a scalar; edit = replace by a drawn value, identity, remove; separate read and write stores; every step that rewrites blocks is repeated with a storage whose first / last commit fails and must then fail; non-trivial = target depth ≥2, below a link, a later step of a sequence, a removal or an insertion; distinct by (graph, steps)",
 	Gen: func(t *rapid.T) C16Case {
 		o := graph.DefaultOpts()
 		o.LinkHeavy = rapid.Bool().Draw(t, "linkheavy")
